@@ -1,22 +1,126 @@
 (* C04 - dict / JSON round trip: from_dict(to_dict(m)) and from_json(to_json(m)) give m.
-   Model: coq/Model/Json.v (to_dict, _from_dict_init, from_dict both forms, the json text path),
-   side conditions and the normal form: coq/Proofs/C04Def.v.  Work in progress: see the comments. *)
-From BP Require Import Base.Prelude Model.Types Model.Object Model.Eq Model.TimeCore Model.Encode Model.WellFormed Model.Json.
-From BP Require Import Proofs.C04Def Proofs.C04ScalarP Proofs.C04CalP Proofs.C04CalSweepP Proofs.C04ObjP.
 
-(* ---- oracles of the model, proved rather than assumed ---- *)
+   Model   coq/Model/Json.v: Message.to_dict, _from_dict_init, from_dict (class and instance form), the json text
+           path (text_rt = json.loads o json.dumps on the AST), _dump_float/_parse_float, _dump_enum, _dump_json_value/
+           _parse_json_value/_parse_json_key, base64, isoformat/isoparse, over the shared object model (Object, Eq, Encode).
+   Side conditions (coq/Proofs/C04Def.v, all decidable, all evaluated by harness/props/c04.py on what it generates):
+     wf_schema sc                 the class table is what the plugin / the field API builds
+     keys_ok cs sc                the keys of every class are pairwise distinct and map back to their field (C19)
+     good sc m = in_range sc m    C01's in-range values
+              && oneof_ok sc m    a oneof member holds a value iff its group selects it (at every depth)
+              && dicts_ok sc m    the keys of a dict are pairwise distinct (an invariant of Python dicts)
+              && json_supported sc m, whose three conjuncts are the classes the repaired code still cannot round-trip,
+                                  each with a _refuted witness below and an entry in known_findings/C04.json:
+                   no_unknown     unknown fields have no JSON form              (cls unknown-fields)
+                   no_lazy        K12: non-empty message below a lazily created intermediate (cls lazy-intermediate)
+                   nan_ok         NaN other than float("nan") / NaN inside repeated or map  (cls nan-payload, nan-in-container)
+   All theorems are about to_dict(include_default_values=False) (the default); obj_eq is Message.__eq__, enc_obj is bytes(). *)
+From BP Require Import Base.Prelude Model.Types Model.Object Model.Eq Model.TimeCore Model.Encode Model.WellFormed Model.Json.
+From BP Require Import Proofs.C04Def Proofs.C04ScalarP Proofs.C04CalP Proofs.C04CalSweepP Proofs.C04ObjP Proofs.C04RtP4 Proofs.C04WitP.
+
+(* ---- the oracles inside the model, proved rather than assumed ---- *)
 Theorem C04_base64_inverse : forall bs, b64decode (b64encode bs) = Ok bs.
 Proof. exact b64_roundtrip. Qed.
 Print Assumptions C04_base64_inverse.
 
+(* isoparse reads back every Timestamp string to_dict writes (years 1..9999; the calendar by a sweep of one 400-year era) *)
 Theorem C04_calendar_inverse : forall us,
   (dt_min_us <=? us) && (us <=? dt_max_us) = true -> iso_parse (ts_text us) = Ok us.
 Proof. intros us H. exact (iso_roundtrip us cal_fact_holds H). Qed.
 Print Assumptions C04_calendar_inverse.
 
-(* ---- (A) what from_dict makes of to_dict(m): exactly the normal form, on the dict and through the text ---- *)
+(* ---- (A) from_dict of to_dict(m), directly (text = false) or through the JSON text (text = true), is exactly norm_obj m ---- *)
 Theorem C04_from_to_dict_norm : forall sc cs (text : bool) m,
   wf_schema sc = true -> keys_ok cs sc = true -> good sc m = true ->
   from_dict_cls sc (ocls m) (tr text (to_dict cs false sc m)) = Ok (norm_obj sc m).
 Proof. intros sc cs text m W K G. exact (from_to_dict_norm sc cs text W K m G). Qed.
 Print Assumptions C04_from_to_dict_norm.
+
+(* ---- (B) norm_obj m is == m and encodes to the same bytes ---- *)
+Theorem C04_norm_faithful : forall sc m, wf_schema sc = true -> good sc m = true ->
+  obj_eq sc (norm_obj sc m) m = true /\ enc_obj sc (norm_obj sc m) = enc_obj sc m.
+Proof. intros sc m W G. exact (norm_faithful sc W m G). Qed.
+Print Assumptions C04_norm_faithful.
+
+(* ---- the property, classmethod form, dict path, both casings.
+   _partial: the instance form on a fresh object (o.from_dict) is covered by the correspondence check only. ---- *)
+Theorem C04_dict_rt_partial : forall sc cs m,
+  wf_schema sc = true -> keys_ok cs sc = true -> good sc m = true ->
+  exists m', from_dict_cls sc (ocls m) (to_dict cs false sc m) = Ok m' /\
+             obj_eq sc m' m = true /\ enc_obj sc m' = enc_obj sc m.
+Proof.
+  intros sc cs m W K G. exists (norm_obj sc m). split.
+  - exact (from_to_dict_norm sc cs false W K m G).
+  - exact (norm_faithful sc W m G).
+Qed.
+Print Assumptions C04_dict_rt_partial.
+
+(* ---- the same through json.loads(json.dumps(.)): object keys arrive as strings, NaN as the one NaN.
+   _partial: instance form as above; that json.dumps accepts the dict is C04_dumps_total's business. ---- *)
+Theorem C04_text_rt_partial : forall sc cs m,
+  wf_schema sc = true -> keys_ok cs sc = true -> good sc m = true ->
+  exists m', from_dict_cls sc (ocls m) (text_rt (to_dict cs false sc m)) = Ok m' /\
+             obj_eq sc m' m = true /\ enc_obj sc m' = enc_obj sc m.
+Proof.
+  intros sc cs m W K G. exists (norm_obj sc m). split.
+  - exact (from_to_dict_norm sc cs true W K m G).
+  - exact (norm_faithful sc W m G).
+Qed.
+Print Assumptions C04_text_rt_partial.
+
+(* ---- the classes of values outside json_supported really fail (each replayed on the implementation) ---- *)
+Theorem C04_unknown_fields_refuted :
+  domain_ok ex_sc wit_unknown = true /\ no_lazy ex_sc wit_unknown = true /\ nan_ok wit_unknown = true /\
+  no_unknown wit_unknown = false /\
+  match rt_class CAMEL false ex_sc wit_unknown with
+  | Ok m' => obj_eq ex_sc m' wit_unknown = true /\ bytes_differ (enc_obj ex_sc m') (enc_obj ex_sc wit_unknown) = true
+  | Err _ => False
+  end.
+Proof. exact unknown_refuted. Qed.
+Print Assumptions C04_unknown_fields_refuted.
+
+Theorem C04_lazy_intermediate_refuted :
+  domain_ok ex_sc wit_lazy = true /\ no_unknown wit_lazy = true /\ nan_ok wit_lazy = true /\
+  no_lazy ex_sc wit_lazy = false /\
+  to_dict CAMEL false ex_sc wit_lazy = JObj [] /\
+  match rt_class CAMEL false ex_sc wit_lazy with
+  | Ok m' => obj_eq ex_sc m' wit_lazy = false /\ bytes_differ (enc_obj ex_sc m') (enc_obj ex_sc wit_lazy) = true
+  | Err _ => False
+  end.
+Proof. exact lazy_refuted. Qed.
+Print Assumptions C04_lazy_intermediate_refuted.
+
+Theorem C04_nan_in_container_refuted :
+  domain_ok ex_sc wit_nan_list = true /\ no_unknown wit_nan_list = true /\ no_lazy ex_sc wit_nan_list = true /\
+  nan_ok wit_nan_list = false /\
+  match rt_class CAMEL true ex_sc wit_nan_list with
+  | Ok m' => obj_eq ex_sc m' wit_nan_list = false /\ enc_obj ex_sc m' = enc_obj ex_sc wit_nan_list
+  | Err _ => False
+  end.
+Proof. exact nan_in_container_refuted. Qed.
+Print Assumptions C04_nan_in_container_refuted.
+
+Theorem C04_nan_payload_refuted :
+  domain_ok ex_sc wit_nan_payload = true /\ no_unknown wit_nan_payload = true /\ no_lazy ex_sc wit_nan_payload = true /\
+  nan_ok wit_nan_payload = false /\
+  match rt_class CAMEL false ex_sc wit_nan_payload with
+  | Ok m' => obj_eq ex_sc m' wit_nan_payload = true /\ bytes_differ (enc_obj ex_sc m') (enc_obj ex_sc wit_nan_payload) = true
+  | Err _ => False
+  end.
+Proof. exact nan_payload_refuted. Qed.
+Print Assumptions C04_nan_payload_refuted.
+
+(* ---- non-vacuity: one schema and one value meet every hypothesis at once (nested message, set optional 0, optional
+        Timestamp at the epoch, map<int32,bytes> with an empty value, repeated double, the canonical NaN, a selected oneof
+        member holding its default), and the round trip through the text really rebuilds it ---- *)
+Example C04_hypotheses_satisfiable :
+  wf_schema ex_sc = true /\ keys_ok CAMEL ex_sc = true /\ keys_ok SNAKE ex_sc = true /\ good ex_sc ex_m = true.
+Proof. vm_compute. repeat split; reflexivity. Qed.
+
+Example C04_nonvacuous :
+  match from_dict_cls ex_sc 11 (text_rt (to_dict SNAKE false ex_sc ex_m)) with
+  | Ok m' => obj_eq ex_sc m' ex_m = true /\ enc_obj ex_sc m' = enc_obj ex_sc ex_m /\
+             match enc_obj ex_sc ex_m with Ok b => (70 <? Zlength b) = true | Err _ => False end
+  | Err _ => False
+  end.
+Proof. vm_compute. repeat split; reflexivity. Qed.
